@@ -16,7 +16,7 @@ use alpenglow::types::{SliceIndex, Slot};
 use alpenglow::{BlockId, ValidatorIndex};
 use tokio::sync::{RwLock, mpsc};
 
-use crate::c13::{BuiltSlice, SliceSpec, build_slice, resign_slice};
+use crate::c13::{BuiltSlice, SliceSpec, build_slice, resign_slice, resign_slice_for_slot};
 use crate::coqfmt as cf;
 use crate::pool::{Keys, r_bid, id_of};
 use crate::rng::Rng;
@@ -39,7 +39,7 @@ impl<S: Clone + Send + Sync, R: Send + Sync> Network for Net<S, R> {
     async fn receive(&self) -> std::io::Result<R> { std::future::pending().await }
 }
 
-struct World { slot: u64, built: Vec<BuiltSlice>, alt: Vec<BuiltSlice>, hash: BlockHash, tree: DoubleMerkleTree, roots: Vec<SliceRoot>, leader: SecretKey }
+struct World { slot: u64, built: Vec<BuiltSlice>, alt: Vec<BuiltSlice>, other_slot: Vec<BuiltSlice>, hash: BlockHash, tree: DoubleMerkleTree, roots: Vec<SliceRoot>, leader: SecretKey }
 
 fn world(rng: &mut Rng) -> World {
     let mut rk = rand::rng();
@@ -58,7 +58,9 @@ fn world(rng: &mut Rng) -> World {
     let roots: Vec<SliceRoot> = built.iter().map(|b| b.root.clone()).collect();
     let tree = DoubleMerkleTree::new(roots.iter());
     let hash = tree.get_root();
-    World { slot, built, alt, hash, tree, roots, leader }
+    // the same block content signed by the (Byzantine) leader for the next slot of its window: same roots, same block hash
+    let other_slot: Vec<BuiltSlice> = built.iter().map(|b| resign_slice_for_slot(b, slot + 1, &leader)).collect();
+    World { slot, built, alt, other_slot, hash, tree, roots, leader }
 }
 
 struct Ids { roots: Vec<Vec<u8>> }
@@ -140,7 +142,7 @@ pub fn requester_case(rng: &mut Rng, keys: &mut Keys, cid: u64) -> (String, Hash
         let req = outstanding[rng.below(outstanding.len() as u64) as usize].clone();
         // choose what arrives for this request
         let is_s0 = matches!(&req, RepairRequestType::Shred(_, s, _) if wincode::serialize(s).map(|x| x[..8] == [0u8; 8]).unwrap_or(false));
-        let mode = if attack && is_s0 && !attacked.contains(&r_req(&req, &key_of)) { attacked.insert(r_req(&req, &key_of)); "byzantine-slice" } else { match rng.below(20) { 0..=9 => "honest", 10 => "tag-flipped", 11 => "nack", 12 => "bad-proof", 13 => "wrong-variant", 14 => "wrong-root", 15 => "replay", 16 => "unsolicited", 17 => "wrong-shred", 18 => "byzantine-slice", 19 => "flipped-last-flag", _ => "honest" } };
+        let mode = if attack && is_s0 && !attacked.contains(&r_req(&req, &key_of)) { attacked.insert(r_req(&req, &key_of)); "byzantine-slice" } else { match rng.below(20) { 0..=8 => "honest", 9 => "cross-slot-shred", 10 => "tag-flipped", 11 => "nack", 12 => "bad-proof", 13 => "wrong-variant", 14 => "wrong-root", 15 => "replay", 16 => "unsolicited", 17 => "wrong-shred", 18 => "byzantine-slice", 19 => "flipped-last-flag", _ => "honest" } };
         let honest = |req: &RepairRequestType| -> RepairResponse {
             match req {
                 RepairRequestType::LastSliceRoot(_) => { let l = w.built.len() - 1; RepairResponse::LastSliceRoot(req.clone(), slice_index(l as u64), w.roots[l].clone(), w.tree.create_proof(l)) }
@@ -167,6 +169,11 @@ pub fn requester_case(rng: &mut Rng, keys: &mut Keys, cid: u64) -> (String, Hash
             },
             "replay" => if history.is_empty() { honest(&req) } else { history[rng.below(history.len() as u64) as usize].clone() },
             "unsolicited" => { let other = RepairRequestType::Shred(bid.clone(), slice_index(7), ShredIndex::new(3).unwrap()); RepairResponse::Nack(other) }
+            "cross-slot-shred" => match &req {
+                // the shred at exactly the requested (slice, index), validly signed by the leader - for the NEXT slot
+                RepairRequestType::Shred(_, s, i) => { let si = wincode::serialize(s).map(|x| u64::from_le_bytes(x[..8].try_into().unwrap())).unwrap() as usize; RepairResponse::Shred(req.clone(), w.other_slot[si.min(w.other_slot.len() - 1)].shreds[i.inner()].as_shred().clone()) }
+                _ => honest(&req),
+            },
             "wrong-shred" => match &req {
                 RepairRequestType::Shred(_, s, i) => { let si = wincode::serialize(s).map(|x| u64::from_le_bytes(x[..8].try_into().unwrap())).unwrap() as usize; let j = (i.inner() + 1 + rng.below(62) as usize) % 64; RepairResponse::Shred(req.clone(), w.built[si.min(w.built.len() - 1)].shreds[j].as_shred().clone()) }
                 _ => honest(&req),
@@ -218,7 +225,10 @@ pub fn responder_case(rng: &mut Rng, keys: &mut Keys, cid: u64) -> (String, u64,
     let mut bs_impl = BlockstoreImpl::new(btx);
     // the responder holds the block completely (or only its first slice partially)
     let partial = rng.chance(1, 4);
+    // sometimes an unfinished repair of the very same block precedes its arrival through dissemination
+    let pre_repair: usize = if !partial && rng.chance(1, 3) { rng.range(1, 12) as usize } else { 0 };
     rt.block_on(async {
+        for k in 0..pre_repair { let _ = bs_impl.add_shred_from_repair(w.hash.clone(), w.built[0].shreds[k].clone()).await; }
         for (si, b) in w.built.iter().enumerate() {
             let take = if partial { if si == 0 { 20 } else { 0 } } else { 64 };
             for k in 0..take { let _ = bs_impl.add_shred_from_dissemination(b.shreds[k].clone()).await; }
@@ -264,6 +274,8 @@ pub fn responder_case(rng: &mut Rng, keys: &mut Keys, cid: u64) -> (String, u64,
         if panicked { break; }
     }
     // what the responder holds, as model operations
+    let mut held_repair = Vec::new();
+    for k in 0..pre_repair { let (bs, _, _, _) = shred_bs(&mut ids, w.built[0].shreds[k].as_shred(), 0); held_repair.push(bs); }
     let mut held = Vec::new();
     for (si, b) in w.built.iter().enumerate() {
         let take = if partial { if si == 0 { 20 } else { 0 } } else { 64 };
@@ -273,7 +285,7 @@ pub fn responder_case(rng: &mut Rng, keys: &mut Keys, cid: u64) -> (String, u64,
     for b in &w.built { content.push(format!("({}, (DecOk {} {}))", cf::n(ids.id(&b.root)), cf::opt(b.spec.parent.map(r_bid)), cf::b(b.spec.txs_ok))); }
     let expected = cf::list(&w.roots.iter().map(|r| cf::n(ids.id(r))).collect::<Vec<_>>());
     let _ = id_of;
-    (format!("(QCase {} {} {} {} {} {})", cf::n(cid), cf::n(w.slot), cf::list(&content), expected, cf::list(&held), cf::list(&qs)), problems, panicked)
+    (format!("(QCase {} {} {} {} {} {} {})", cf::n(cid), cf::n(w.slot), cf::list(&content), expected, cf::list(&held_repair), cf::list(&held), cf::list(&qs)), problems, panicked)
 }
 
 pub fn gen_c14(seed: u64, tier: Tier) -> CaseSet {
@@ -308,7 +320,7 @@ pub fn gen_c14(seed: u64, tier: Tier) -> CaseSet {
         descr.push(format!("case {}: responder, answers failing verification: {}, panicked: {}", cid, problems, panicked));
         cases.push(txt); cid += 1;
     }
-    stats.rule = "requester: a 1-2 slice block of a fresh leader is repaired through the real Repair state machine; for a randomly chosen outstanding request the next arriving response is correct (50%), the correct shred with its unsigned data / coding type tag flipped, a NACK, has a corrupted proof, the wrong variant, another (validly signed) slice's root, is a replay of an earlier response, unsolicited, a shred with another index, or a shred of a conflicting slice the (Byzantine) leader also signed; hostile responses routinely arrive before the correct one. responder: every request kind for existing / out-of-range slice and shred indices, a block it holds completely or only partially, an unknown block, known and unknown senders; every positive answer is verified with the real check_proof / check_proof_last / ValidatedShred::try_new. non-trivial = distinct trace".into();
+    stats.rule = "requester: a 1-2 slice block of a fresh leader is repaired through the real Repair state machine; for a randomly chosen outstanding request the next arriving response is correct (50%), the correct shred with its unsigned data / coding type tag flipped, a NACK, has a corrupted proof, the wrong variant, another (validly signed) slice's root, is a replay of an earlier response, unsolicited, a shred with another index, the right shred signed for another slot of the leader's window, or a shred of a conflicting slice the (Byzantine) leader also signed; hostile responses routinely arrive before the correct one. responder: every request kind for existing / out-of-range slice and shred indices, a block it holds completely (sometimes with an unfinished repair of the same block filed earlier) or only partially, an unknown block, known and unknown senders; every positive answer is verified with the real check_proof / check_proof_last / ValidatedShred::try_new. non-trivial = distinct trace".into();
     let mut v: Vec<_> = kinds_total.into_iter().collect(); v.sort();
     stats.distribution.push(("response_kinds".into(), v.iter().map(|(k, c)| format!("{}={}", k, c)).collect::<Vec<_>>().join(", ")));
     stats.distribution.push(("requester_cases_completed".into(), format!("{} of {}", completed, nreq)));
